@@ -47,7 +47,7 @@ ObsInit == [cfg |-> <<>>, rec |-> <<>>, claim |-> <<>>, open |-> <<>>, spent |->
             sent |-> {}, tx |-> <<>>, tip |-> [btc |-> 1000, lbtc |-> 5000], act |-> {}, disk |-> {},
             now |-> 0, up |-> TRUE, treq |-> <<>>, tagr |-> <<>>, step |-> NoStep, allowNew |-> TRUE,
             susp |-> FALSE, allowed |-> FALSE, csvdone |-> {}, timersFired |-> FALSE, removed |-> <<>>, lateretx |-> <<>>,
-            ver |-> "current", restarted |-> FALSE, faults |-> FALSE, crashes |-> FALSE, lost |-> {}]
+            ver |-> "current", restarted |-> FALSE, faults |-> FALSE, crashes |-> FALSE, lost |-> {}, lostspend |-> {}]
 
 Rec(o, s)   == Get(o.rec, s, [cur |-> "none", role |-> "none"])
 Claim(o, s) == Get(o.claim, s, NoClaim)
@@ -124,7 +124,9 @@ ChkSend(o, e) ==
   \cup (IF e.type # TypeNo(e.kind) \/ e.type % 2 = 0 \/ e.type < 42069 \/ e.type > 42085 THEN {"C21|type-number|" \o e.kind} ELSE {})
   \cup (IF ~e.roundtrip THEN {"C21|roundtrip|" \o e.kind} ELSE {})
   \cup (IF e.kind = "coop_close" /\ Claim(o, s).status \in {"inflight", "succeeded"}
-        THEN {"C06|coop_close-while-payment-" \o Claim(o, s).status \o "|" \o r.role \o "|" \o r.prev \o ">" \o r.cur} ELSE {})
+        THEN {"C06|coop_close-while-payment-" \o Claim(o, s).status \o "|" \o r.role \o "|" \o r.prev \o ">" \o r.cur
+                \o (IF r.preimage THEN "|preimage-in-record" ELSE "|outcome-unknown-to-node")
+                \o (IF o.crashes THEN "|after-crash" ELSE "") \o (IF o.faults THEN "|after-service-failure" ELSE "")} ELSE {})
   \cup (IF e.kind = "coop_close" /\ Known(o, s) /\ r.role \notin Takers THEN {"C23|coop_close-by-maker"} ELSE {})
   \* C13: the Liquid anchor is on disk before the pubkey leaves
   \cup (IF ((e.kind = "swap_out_request" /\ r.role = "out_sender") \/ (e.kind = "swap_in_agreement" /\ r.role = "in_receiver"))
@@ -251,9 +253,11 @@ ChkTimers(o) ==
 \* C16 / C06c / C07c at the end of a trace that ended with the fair closure
 ChkEnd(o, e) ==
   IF ~(Has(e, "closed") /\ e.closed) THEN {} ELSE
-  {"C16|not-terminated|" \o o.rec[s].role \o "|" \o o.rec[s].cur : s \in {x \in DOMAIN o.rec : o.rec[x].cur \notin Terminal /\ o.rec[x].cur # ""}}
-  \cup {"C16|channel-not-released|" \o a.cur : a \in o.act}
-  \cup {"C06|paid-but-not-claimed|" \o o.rec[s].role \o "|" \o o.rec[s].cur :
+  {"C16|not-terminated|" \o o.rec[s].role \o "|" \o (IF s \in o.lostspend THEN "crash-between-claim-broadcast-and-persist" ELSE o.rec[s].cur) :
+      s \in {x \in DOMAIN o.rec : o.rec[x].cur \notin Terminal /\ o.rec[x].cur # ""}}
+  \cup {"C16|channel-not-released|" \o (IF a.sid \in o.lostspend THEN "crash-between-claim-broadcast-and-persist"
+                                       ELSE IF a.cur = "" THEN "record-without-state-after-crash" ELSE a.cur) : a \in o.act}
+  \cup {"C06|paid-but-not-claimed|" \o o.rec[s].role \o "|" \o (IF s \in o.lostspend THEN "crash-between-claim-broadcast-and-persist" ELSE o.rec[s].cur) :
           s \in {x \in DOMAIN o.claim : o.claim[x].status = "succeeded" /\ Known(o, x) /\ o.rec[x].cur # "State_ClaimedPreimage"}}
 
 (* ------------------------------------------------------------------------ *)
@@ -283,6 +287,7 @@ ApplyEv(o, e) ==
     [] e.ev = "wallet.spend" ->
          IF e.ok THEN LET s == e.sid IN [o EXCEPT !.spent = Put(o.spent, s, Get(o.spent, s, {}) \cup {e.kind})] ELSE o
     [] e.ev = "tx.new" ->
+         IF e.tx \in DOMAIN o.tx THEN o ELSE   \* a re-announced transaction keeps its place in the chain
          [o EXCEPT !.tx = Put(o.tx, e.tx, [known |-> TRUE, conf |-> 0, any_good |-> e.any_good, hash_locked |-> e.hash_locked,
                                           inv_hash |-> e.inv_hash, sid |-> e.sid, chain |-> e.chain])]
     [] e.ev = "block" ->
@@ -313,10 +318,14 @@ ApplyEv(o, e) ==
                        !.susp = IF e.a = "policy" /\ e.kind = "suspect" THEN TRUE ELSE IF e.a = "policy" /\ e.kind = "unsuspect" THEN FALSE ELSE @,
                        !.allowed = IF e.a = "policy" /\ e.kind = "allow" THEN TRUE ELSE IF e.a = "policy" /\ e.kind = "disallow" THEN FALSE ELSE @]
     [] e.ev = "timer.fire" -> [o EXCEPT !.now = e.now, !.timersFired = TRUE]
-    [] e.ev = "start" -> [o EXCEPT !.up = TRUE, !.restarted = @ \/ e.recover]
+    [] e.ev = "start" -> [o EXCEPT !.up = TRUE, !.restarted = @ \/ e.recover, !.removed = <<>>, !.lateretx = <<>>]
+    [] e.ev = "sender.add" -> IF e.ok THEN [o EXCEPT !.removed = Put(@, e.sid, "live")] ELSE o
+    [] e.ev = "sender.remove" -> [o EXCEPT !.removed = Put(@, e.sid, "removed")]
     [] e.ev = "crash" -> [o EXCEPT !.up = FALSE, !.crashes = TRUE,
                                    \* the process died between the wallet's broadcast and the next store write
-                                   !.lost = @ \cup {x \in DOMAIN o.open : o.open[x].n >= 1 /\ ~Rec(o, x).otb}]
+                                   !.lost = @ \cup {x \in DOMAIN o.open : o.open[x].n >= 1 /\ ~Rec(o, x).otb},
+                                   \* ... or between the broadcast of a claim / refund and the store write recording it
+                                   !.lostspend = @ \cup {x \in DOMAIN o.spent : o.spent[x] # {} /\ x \in DOMAIN o.rec /\ ~o.rec[x].claim_tx}]
     [] e.ev = "stop" -> [o EXCEPT !.up = FALSE]
     [] e.ev = "quiesce" ->
          [o EXCEPT !.act = SetOf(e.active), !.disk = SetOf(e.disk),
@@ -335,6 +344,8 @@ CheckEv(o, e) ==
          \cup (IF Known(o, e.sid) /\ old.key # e.key THEN {"C09|swap-key-replaced|" \o old.role \o ">" \o e.role} ELSE {})
          \cup (IF Known(o, e.sid) /\ old.role # e.role THEN {"C09|role-replaced|" \o old.role \o ">" \o e.role} ELSE {})
          \cup (IF Known(o, e.sid) /\ old.cur \in Terminal /\ e.cur # old.cur THEN {"C09|finished-swap-changed|" \o old.cur \o ">" \o e.cur} ELSE {})
+    [] e.ev = "sender.add" ->
+         IF e.ok /\ Get(o.removed, e.sid, "none") = "live" THEN {"C22|second-retransmitter-for-swap|" \o Rec(o, e.sid).cur} ELSE {}
     [] e.ev = "reload" ->
          IF Known(o, e.sid) /\ Rec(o, e.sid).digest # e.digest THEN {"C14|reloaded-record-differs|" \o Rec(o, e.sid).role \o "|" \o e.cur} ELSE {}
     [] e.ev = "quiesce" -> ChkQuiesce(o, e, SetOf(e.active), SetOf(e.disk)) \cup (IF o.timersFired /\ ~o.faults /\ e.up THEN ChkTimers(o) ELSE {})
